@@ -80,7 +80,7 @@ BAD_NAMES = ["2nd", "a<b", "a b", "a&b", 'q"x', "x>", "-x", ".x", "a/b", "a=b", 
 def hostile_name_form(rng, i):
     """(form, channel). Acceptable: PyXFormError, or well-formed output."""
     bad = rng.choice(BAD_NAMES)
-    ch = rng.choice(["choices-header", "instance-attr", "bind-attr", "body-attr", "settings-attribute", "namespaces-prefix",
+    ch = rng.choice(["choices-header", "instance-attr", "bind-attr", "body-attr", "settings-attribute", "namespaces-prefix", "settings-suffixed-header",
                      "ctl-char-label", "ctl-char-choice", "ctl-char-default", "ctl-char-title", "loop-choice-name", "loop-choice-name", "question-name", "group-name"])
     f = gen.simple_form([("text", "q1", {"label": "L1"}), ("select_one l1", "q2", {"label": "L2"})],
                         choices={"l1": [{"name": "a", "label": "A"}, {"name": "b", "label": "B"}]})
@@ -95,6 +95,10 @@ def hostile_name_form(rng, i):
         f.survey[0].cells[f"body::{bad}"] = "v"
     elif ch == "settings-attribute":
         f.settings[f"attribute::{bad}"] = "v"
+    elif ch == "settings-suffixed-header":
+        # a settings column with a stray '::' suffix: its value must not end up in an attribute as anything but escaped text
+        bad = rng.choice(["attribute::note::en", "version::en", "submission_url::en", "style::en", "prefix::x", "attribute::a::b::c"])
+        f.settings[bad] = rng.choice(["it's", 'say "x"', "a & b", "<v>", "plain"])
     elif ch == "namespaces-prefix":
         f.settings["namespaces"] = f'{bad}="http://example.org/x"'
     elif ch == "question-name":
@@ -193,6 +197,32 @@ def run_shard(ctx):
             for key, what in v:
                 ctx.viol(f"hostile-name:{ch}:{name_class(bad)}", f"[{ch}] name/char {bad!r} accepted and output is {what}",
                          common.witness(form, channel=ch, bad=bad, pretty=pretty, klass="names"))
+    # ---- dict workbooks with cells that are not text (lists, numbers, booleans, nested dicts) in attribute-bearing places:
+    #      whatever pyxform does with them, a *successful* conversion must still be a well-formed document
+    import copy
+    NONTEXT = [["a<b", "c&d"], {"en": "it's \"q\" & <x>"}, 2024, 1.5, True, ("t", "<u>")]
+    for i in range(n // 8):
+        if not ctx.mine(i):
+            continue
+        rng = ctx.rng("nontext", i)
+        wb = {"survey": [{"type": "text", "name": "q1", "label": "L"}, {"type": "select_one l1", "name": "q2", "label": "S"}],
+              "choices": [{"list_name": "l1", "name": "a", "label": "A"}], "settings": [{"form_id": "f1"}]}
+        where = rng.choice(["settings:attribute::tags", "settings:version", "settings:style", "settings:form_title", "survey:instance::x", "survey:bind::odk:y", "survey:body::z",
+                            "choices:extra", "choices:name", "survey:appearance"])
+        sheet, col = where.split(":", 1)
+        wb[sheet][0][col] = rng.choice(NONTEXT)
+        for pretty in (False, True):
+            o = drive.call_convert(copy.deepcopy(wb), pretty_print=pretty)
+            ctx.ctr("hostile_name_cases")
+            ctx.ctr("nontext_cell_cases")
+            if not o.ok:
+                ctx.ctr("hostile_name_rejected")
+                ctx.case(sig=f"nontext|{where}|rejected")
+                continue
+            p, v = invariants.c01_wellformed(o.xform)
+            ctx.case(sig=f"nontext|{where}|{'bad' if v else 'ok'}")
+            for key, what in v:
+                ctx.viol(f"nontext-cell:{where}:{key.split(':')[0]}", f"[dict workbook, {where} = {wb[sheet][0][col]!r}] accepted and output is {what}", {"workbook": wb, "pretty": pretty, "klass": "nontext"})
     # ---- fixtures (shard 0 .. k)
     files = common.fixture_files()
     for j, path in enumerate(files):
@@ -213,7 +243,10 @@ def run_shard(ctx):
 
 def replay(w):
     def chk(ctx, wit):
-        if wit.get("klass") == "fixture":
+        if wit.get("klass") == "nontext":
+            o = drive.call_convert(wit["workbook"], pretty_print=wit.get("pretty", False))
+            form = None
+        elif wit.get("klass") == "fixture":
             o = drive.call_convert(wit["fixture"], pretty_print=wit.get("pretty", False))
             form = None
         else:
